@@ -696,6 +696,68 @@ func (c *ctx) msgCases(n int) {
 	}
 }
 
+// ---- SPAO option views (pkt_auth.go) ---------------------------------------------------------------
+
+func (c *ctx) spaoOptCases(n int) {
+	e, r := c.e, c.r
+	for i := 0; i < n; i++ {
+		// params -> option
+		p := slayers.PacketAuthOptionParams{SPI: slayers.PacketAuthSPI(r.U64()), Algorithm: slayers.PacketAuthAlg(r.U64()),
+			TimestampSN: r.U64() & (1<<48 - 1), Auth: r.Bytes([]int{0, 16, 16, 20, 36, 1 + r.Intn(60), 243}[r.Intn(7)])}
+		if r.Chance(10) {
+			p.TimestampSN = r.U64() // mostly >= 2^48: rejected
+		}
+		opt, err := slayers.NewPacketAuthOption(p)
+		ans := "err"
+		if err == nil {
+			ans = fmt.Sprintf("ok %d %d %s %d %d", uint8(opt.OptType), opt.OptDataLen, vlib.Hex(opt.OptData),
+				opt.OptAlign[0], opt.OptAlign[1])
+		}
+		e.Op(fmt.Sprintf("sopt %d %d %d %s", uint32(p.SPI), uint8(p.Algorithm), p.TimestampSN, vlib.Hex(p.Auth)), ans,
+			"sopt/"+strings.SplitN(ans, " ", 2)[0])
+		if err == nil {
+			// params -> option -> params
+			if opt.SPI() != p.SPI || opt.Algorithm() != p.Algorithm || opt.TimestampSN() != p.TimestampSN ||
+				!bytes.Equal(opt.Authenticator(), p.Auth) {
+				e.Violate("C18/spao-option-roundtrip", "SPAO option views differ from the parameters it was built from",
+					map[string]any{"spi": uint32(p.SPI), "alg": uint8(p.Algorithm), "ts": p.TimestampSN, "auth": vlib.Hex(p.Auth)})
+			}
+		}
+		// option bytes -> views -> option
+		typ := uint8(2)
+		if r.Chance(15) {
+			typ = uint8(r.U64())
+		}
+		d := r.Bytes([]int{0, 5, 11, 12, 13, 28, 28, 32, r.Intn(80)}[r.Intn(9)])
+		o := &slayers.EndToEndOption{OptType: slayers.OptionType(typ), OptData: append([]byte(nil), d...)}
+		ans2, _ := vlib.Safe(func() string {
+			a, err := slayers.ParsePacketAuthOption(o)
+			if err != nil {
+				return "err"
+			}
+			return fmt.Sprintf("ok %d %d %d %s", uint32(a.SPI()), uint8(a.Algorithm()), a.TimestampSN(), vlib.Hex(a.Authenticator()))
+		})
+		e.Op(fmt.Sprintf("aopt %d %s", typ, vlib.Hex(d)), ans2, "aopt/"+strings.SplitN(ans2, " ", 2)[0])
+		rep := map[string]any{"type": typ, "data": vlib.Hex(d)}
+		if strings.HasPrefix(ans2, "PANIC") {
+			e.Violate("C18/spao-option-panic", ans2, rep)
+		}
+		if strings.HasPrefix(ans2, "ok") {
+			if typ != 2 || len(d) < 12 {
+				e.Violate("C18/spao-option-accepted", "an option that is not a complete authenticator option was accepted", rep)
+			}
+			a, _ := slayers.ParsePacketAuthOption(o)
+			re, err := slayers.NewPacketAuthOption(slayers.PacketAuthOptionParams{SPI: a.SPI(), Algorithm: a.Algorithm(),
+				TimestampSN: a.TimestampSN(), Auth: a.Authenticator()})
+			want := append([]byte(nil), d...)
+			want[5] = 0 // RSV
+			if err != nil || !bytes.Equal(re.OptData, want) {
+				e.Violate("C18/spao-option-reserialize-differs", "rebuilding the option from its views does not reproduce it (modulo RSV)", rep)
+			}
+		}
+	}
+}
+
 func main() {
 	e := vlib.Init()
 	r := vlib.NewRand(uint64(e.Seed))
@@ -780,5 +842,6 @@ func main() {
 	c.extCases(e.N(600, 12000))
 	c.l4Cases(e.N(600, 12000))
 	c.msgCases(e.N(1600, 32000))
+	c.spaoOptCases(e.N(500, 10000))
 	e.Finish()
 }
